@@ -1049,6 +1049,17 @@ func (s *Sim) IsDown() bool {
 	return s.down
 }
 
+// ParkedIDs returns the identities of the goroutines waiting at yield points (unsorted copy).
+func (s *Sim) ParkedIDs() []string {
+	s.mu.Lock()
+	defer s.mu.Unlock()
+	out := make([]string, 0, len(s.parked))
+	for _, p := range s.parked {
+		out = append(out, p.ID)
+	}
+	return out
+}
+
 // ParkedCount returns the number of goroutines waiting at yield points.
 func (s *Sim) ParkedCount() int {
 	s.mu.Lock()
